@@ -251,6 +251,16 @@ class Inventory:
                             "framesem: %d paths over L in {0}, {1}, [2,1023]" % sem["paths"], f.loc)
                 self.stats["sem"] = self.stats.get("sem", 0) + 1
                 return
+        if any(callee_of(t_) == "tinyvec::ArrayVec::<A>::extend_from_slice" for b_, t_ in f.calls()):
+            # bulk prefix copy into a fresh ArrayString: the idiom check establishes E >= 1 where E is decremented, E <= len(value) where it
+            # indexes, E <= N where it is appended to the empty vector, termination of the decrement loop, and that the function contains no
+            # other assertion, index, call into the crate or loop (textrules.bulk_prefix_writer)
+            import textrules
+            okb, db = textrules.bulk_prefix_writer(prog, f)
+            if okb:
+                self.res.ob("P-idiom", "%s | bulk prefix copy: every assertion, index, append and the loop are covered by the idiom's lemma" % f.path, True, db, f.loc)
+                self.stats["sem"] = self.stats.get("sem", 0) + 1
+                return
         fa = FA(f, prog)
         iv = Intervals(fa, prog, assume=assume)
         names = fa.names
